@@ -24,9 +24,11 @@ for b in blocks:
                      and (suite.group(1).strip() == 'all ok' or 'TestSubscribe' in suite.group(1)))
     checks = re.findall(r'^(C\d+) rc=(\d+) violations=(\d+)\s*(.*)$', body, re.M)
     detected = [c for c, rc, v, _ in checks if rc == '1']
-    detected += extra.get(f'{pid}-{k}', [])
+    detected += extra.get(f'{pid}-{k}', [])  # keyed by the delivered name
     src = f'/tmp/mut/{pid}/MUTANT_{k}'
-    dst = f'/verif/seeded/{pid}-{k}'
+    # round 2 deliveries are again named MUTANT_a/b: SEEDED_RENAME=a:c,b:d keeps round 1 in place
+    ren = dict(x.split(':') for x in os.environ.get('SEEDED_RENAME', '').split(',') if x)
+    dst = f'/verif/seeded/{pid}-{ren.get(k, k)}'
     if not confirmed:
         summary.append((pid, k, 'NOT CONFIRMED', detected))
         continue
